@@ -376,7 +376,7 @@ func (t *binary[V]) Rank(key string) int {
 	i := 0
 	t._traverse(t.root.left, "", Ascending, func(k string, n *binaryNode[V]) bool {
 		if n.term {
-			if k == key {
+			if k >= key { // keys are visited in ascending order: no later key is less than key
 				return false
 			}
 
